@@ -9,6 +9,7 @@ use crate::rnd::{self, R};
 use crate::world::{Obs, World};
 use anchor_lang::AccountDeserialize;
 use num_bigint::BigUint;
+use num_traits::Zero;
 use num_traits::ToPrimitive;
 use rand::Rng;
 use serde_json::json;
@@ -93,9 +94,32 @@ fn function_level(seed: u64, n: u64) -> Acc {
             let ppos: &MemoryMappedPosition = unsafe { &*(bytes.as_ptr() as *const MemoryMappedPosition) };
             // ---- deltas ----
             if k % 3 != 2 {
-                let l = match r.gen_range(0..8) {
-                    0 => 1,
-                    1 => i128::MAX as u128,
+                let l = match r.gen_range(0..16) {
+                    0 | 1 => 1,
+                    2 | 3 => i128::MAX as u128,
+                    4 => {
+                        // the liquidity at which the cost of one of the tokens crosses 2^64 (largest L that still fits
+                        // in u64, found by bisection on the exact model), and its neighbours
+                        let fits = |l: u128| -> bool {
+                            let (a, b) = position_amounts(tc, price, lower, upper, pl, pu, l, true);
+                            a.bits() <= 64 && b.bits() <= 64
+                        };
+                        let (mut lo_l, mut hi_l) = (0u128, i128::MAX as u128);
+                        if fits(hi_l) {
+                            hi_l
+                        } else {
+                            while hi_l - lo_l > 1 {
+                                let mid = lo_l + (hi_l - lo_l) / 2;
+                                if fits(mid) {
+                                    lo_l = mid;
+                                } else {
+                                    hi_l = mid;
+                                }
+                            }
+                            acc.count("liquidity_at_the_u64_cost_boundary");
+                            (lo_l + r.gen_range(0..3)).saturating_sub(r.gen_range(0..2)).max(1)
+                        }
+                    }
                     _ => rnd::log_u128(&mut r, 127).max(1),
                 };
                 let delta: i128 = if r.gen() { l as i128 } else { -(l as i128) };
@@ -223,6 +247,9 @@ impl C08m {
             fail(acc, "token_min_ignored", format!("old range returned ({wa}, {wb}) below the minima ({min_a}, {min_b})"));
         }
         let flow = |x: i128| if x > 0 { "to_owner" } else if x < 0 { "from_owner" } else { "none" };
+        if (want.0 == 0 && !da.is_zero()) || (want.1 == 0 && !db.is_zero()) {
+            acc.count("repositions_with_a_zero_net_of_nonzero_legs");
+        }
         acc.situation(format!("{n}:a_{}:b_{}:oldL{}:newL{}", flow(want.0), flow(want.1), (pp.liquidity > 0) as u8, (np.liquidity > 0) as u8));
         // limit probes on clones of the pre-state: minima = what the old range returns, maxima = what the new one costs
         if wa.bits() <= 64 && wb.bits() <= 64 && da.bits() <= 64 && db.bits() <= 64 && w.r.gen_range(0..2) == 0 {
@@ -358,7 +385,7 @@ impl Monitor for C08m {
 
 pub fn run(tier: Tier, seed: u64) -> i32 {
     let mut rep = Report::new("C08", tier, seed);
-    rep.rule = "function level: Anchor calculate_liquidity_token_deltas and Pinocchio pino_calculate_liquidity_token_deltas (position bytes written by the harness's own encoder) on generated (tick_current, sqrt_price, range, +-L) incl. price exactly on a bound and the shifted-tick state, all spacings: Ok results must equal exact ceil (deposit) / floor (withdraw) amounts, A only below, B only above, both implementations equal, deposit-then-withdraw loses 0..1 per token; estimate_max_liquidity_from_token_amounts: cost(L) fits both maxima and cost(L+1) does not. instruction level (history workload, plain pools): balance deltas of every increase/decrease/by-amounts equal the exact amounts, by-amounts liquidity is maximal, token_max/token_min probes (x-1,x,x+1) on clones; reposition_liquidity_v2 nets exactly floor(old range) - ceil(new range) per token whichever way the difference flows, and its minima (old range) / maxima (new range) are probed at the exact values and one unit inside. distinct = (kind, price class, sign, liquidity magnitude, spacing)".into();
+    rep.rule = "function level: Anchor calculate_liquidity_token_deltas and Pinocchio pino_calculate_liquidity_token_deltas (position bytes written by the harness's own encoder) on generated (tick_current, sqrt_price, range, +-L) incl. price exactly on a bound, the shifted-tick state and the liquidity at which a token's cost crosses 2^64 (bisected on the exact model, +-1), all spacings: Ok results must equal exact ceil (deposit) / floor (withdraw) amounts, A only below, B only above, both implementations equal, deposit-then-withdraw loses 0..1 per token; estimate_max_liquidity_from_token_amounts: cost(L) fits both maxima and cost(L+1) does not. instruction level (history workload, plain pools): balance deltas of every increase/decrease/by-amounts equal the exact amounts, by-amounts liquidity is maximal, token_max/token_min probes (x-1,x,x+1) on clones; reposition_liquidity_v2 nets exactly floor(old range) - ceil(new range) per token whichever way the difference flows, and its minima (old range) / maxima (new range) are probed at the exact values and one unit inside. distinct = (kind, price class, sign, liquidity magnitude, spacing)".into();
     rep.assumptions = vec!["tick prices are the program's own sqrt_price_from_tick_index (decided by C09)".into(), "errors are unconstrained except that both implementations must agree".into()];
     let n = tier.pick(12_000_000, 300_000_000);
     let mut acc = function_level(seed, n);
